@@ -56,8 +56,8 @@ Proof.
     + destruct (eval_expr c e); [|cbn; now rewrite List.app_nil_r]. apply IH.
     + apply IH.
     + destruct (eval_expr c e) as [v|]; [|cbn; now rewrite List.app_nil_r].
-      rewrite (IH c (Some v) pr), (IH c (Some v) []).
-      destruct (run_all c r None []) as [[c1 [w|er]] p]; cbn; [|reflexivity].
+      rewrite (IH (mkC (globals c) (Some v)) (Some v) pr), (IH (mkC (globals c) (Some v)) (Some v) []).
+      destruct (run_all (mkC (globals c) (Some v)) r None []) as [[c1 [w|er]] p]; cbn; [|reflexivity].
       destruct w; reflexivity.
     + destruct (eval_expr c e) as [v|]; [|cbn; now rewrite List.app_nil_r].
       rewrite (IH c last (pr ++ [show_value v])), (IH c None ([] ++ [show_value v])).
